@@ -28,8 +28,13 @@ func runPrepareSeq(r *rng, seqID string, tier string, plan []string) []map[strin
 	cases := make([]*prepCase, n)
 	texts := make([]string, n)
 	modes := make([]string, n)
+	loopSeq := plan == nil && r.chance(1, 2) // every element has loop steps over the sub-workflow files
 	for k := 0; k < n; k++ {
 		g := prepGen{tier: "quick", seq: true, typed: types[(off+k*stride)%3], hidden: -1}
+		if loopSeq {
+			g.forceShape = "loops:" + r.pick([]string{"different", "equal", "mixed"})
+			g.forceMode = "none"
+		}
 		if tier == "thorough" && r.chance(1, 2) {
 			g.tier = tier
 		}
@@ -43,14 +48,44 @@ func runPrepareSeq(r *rng, seqID string, tier string, plan []string) []map[strin
 		texts[k] = cases[k].text
 		modes[k] = cases[k].mode
 	}
+	// the same sub-workflow file NAME with another content in a later element: sub_a.yaml gets the text of sub_c.yaml
+	// (same required input, one more optional input, more output fields), so loops over sub_a.yaml stay valid and are typed
+	// by the text this element's context has, not by what the executor loaded under that name before
+	for k := 1; k < n; k++ {
+		uses := false
+		for _, s := range cases[k].wf.Steps {
+			if s.Kind == "foreach" && s.Workflow == "sub_a.yaml" {
+				uses = true
+			}
+		}
+		if !uses || len(cases[k].files) == 0 || !r.chance(2, 3) {
+			continue
+		}
+		files := map[string][]byte{}
+		for f, t := range cases[k].files {
+			files[f] = t
+		}
+		files["sub_a.yaml"] = []byte(subSpecByFile("sub_c.yaml").Text)
+		cases[k].files = files
+		for j := range cases[k].loops {
+			if cases[k].loops[j].File == "sub_a.yaml" {
+				cases[k].loops[j].Fields = append([]string{}, subSpecByFile("sub_c.yaml").OutFields...)
+			}
+		}
+		cases[k].shapes = append(cases[k].shapes, "seq:same-file-name-other-content")
+	}
 	ps, err := newPrepSession()
 	if err != nil {
 		return []map[string]any{{"kind": "harness-error", "id": seqID, "error": err.Error()}}
 	}
+	filesPer := make([]map[string][]byte, n)
+	for k := 0; k < n; k++ {
+		filesPer[k] = cases[k].files
+	}
 	out := []map[string]any{}
 	for k := 0; k < n; k++ {
 		out = append(out, execPrepareCase(cases[k], fmt.Sprintf("%s-q%d", seqID, k), r.fork(), ps,
-			&seqInfo{id: seqID, index: k, texts: texts, modes: modes}))
+			&seqInfo{id: seqID, index: k, texts: texts, modes: modes, files: filesPer}))
 	}
 	return out
 }
